@@ -37,7 +37,7 @@ ASSUMPTIONS = [
     "messages are compared after parsing with the anchored line grammar and mapping every quoted name back",
 ]
 
-RENAMINGS = ["plain", "adversarial", "adversarial2", "adversarial3"]
+RENAMINGS = ["plain", "adversarial", "adversarial2", "adversarial3", "hyphen"]
 NAMING_MAPS = dict(NAMINGS)
 NAMING_MAPS["adversarial2"] = {"r": "a", "a": "a_", "b": "aa", "c": "a_a", "d": "aaa", "e": "ab", "p": "a__", "q": "aab"}
 # a nested module r.a.b next to a sibling package r.a_b: '.' vs. any other single character
@@ -356,6 +356,8 @@ def diagrams_part(ns, I, seed, res, base_dir, only=None):
     ev0 = build(ns, I, seed)
     evs = {}
     for rn in RENAMINGS:
+        if rn == "hyphen":
+            continue  # component names in a diagram are identifiers or dotted module names (documented subset)
         m = NAMING_MAPS[rn]
         evs[rn] = (m, build([rename(n, m) for n in ns], [(rename(a, m), rename(b, m)) for a, b in I], seed))
 
@@ -429,7 +431,7 @@ def _tuplify(t):
 
 def run_shard(shard, tier, seed):
     global RENAMINGS
-    RENAMINGS = ["plain", "adversarial", "adversarial2", "adversarial3"] + (["unicode"] if shard.get("tier") == "thorough" else [])
+    RENAMINGS = ["plain", "adversarial", "adversarial2", "adversarial3", "hyphen"] + (["unicode"] if shard.get("tier") == "thorough" else [])
     res = Result(shard["bound"])
     part = shard["part"]
     if part in ("rules", "layers"):
